@@ -18,7 +18,9 @@ import common, drv
 
 POOL = ["1", '"ab"', "[1, 2]", "0", "[]"]
 ATOMS = ["1", '"a"', "[]", "dup", "swap", "drop", "over", "add", "elem", "length", "1 0 div", '"a" 1 add',
-         "(value 1 add ?(3 ?lt))*", "{1} apply", "?(1 ?eq)", "pos", "type", "(1, 2)", "!()"]
+         "(value 1 add ?(3 ?lt))*", "{1} apply", "?(1 ?eq)", "pos", "type", "(1, 2)", "!()",
+         # format strings are literals that may consume: directives pop their argument, splices run on the stack
+         '"<%s>"', '"%s%s"', '"%( drop 1 %)"', '"%( swap %)"', '"%( (1, 2) %)"']
 UN = {"cap": "[%s]", "sub": "?(%s)", "nsub": "!(%s)", "opt": "(%s)?", "bind": "(|A| %s A)"}
 BIN = {"cat": "%s %s", "alt": "(%s, %s)", "or": "(%s || %s)"}
 OPS = ["==", "!=", "<", "<=", ">", ">=", "=~", "!~"]
